@@ -252,12 +252,12 @@ impl OctetString {
                         "long string component in CER mode"
                     ));
                 }
+                if short {
+                    return Err(primitive.content_err(
+                        "short non-terminal string component in CER mode"
+                    ));
+                }
                 if primitive.remaining() < 1000 {
-                    if short {
-                        return Err(primitive.content_err(
-                            "short non-terminal string component in CER mode"
-                        ));
-                    }
                     short = true
                 }
                 primitive.skip_all()
